@@ -44,6 +44,12 @@ def confirm(name, prop, finding):
         import native_cli
         ok, info = native_cli.confirm_c15() if prop == "C15" else native_cli.confirm_c17() if prop == "C17" else native_cli.confirm_c16()
         return bool(ok), info
+    if name == "c09":
+        # early termination: the prefix-run comparison AND the bound-dominates-true-regret sweep (a driver that
+        # reports a stale bound is self-consistent under the first but not under the second)
+        ok1, i1 = run("c09")
+        ok2, i2 = run("c02")
+        return bool(ok1) or bool(ok2), {"c09": i1, "c02": i2, "violations": (i1 or {}).get("violations", 0) + (i2 or {}).get("violations", 0)}
     if name == "c12":
         # re-presentation of a game: the constructor's verdict on the tree family AND the evaluator against the oracle
         ok1, i1 = run("c11", ("table",))
